@@ -300,3 +300,7 @@ def run(ctx):
     r2_mask_len(ctx)
     r3_r4_remove_file(ctx)
     r5_remove_tag(ctx)
+
+
+from .selftest import for_families as _ff  # noqa: E402
+selftest = _ff(['slice', 'loop'])
